@@ -52,6 +52,7 @@ Other ==
      diff having entries *)
   \/ \E v \in R(OfferVersions), var \in R(MCEmptyDiffShapes), k \in R({"root", "diff", "oldroot"}) :
        OfferWrongRoot(v, var, k, "resealed")
+  \/ (steps > 0 /\ \E g \in R(BOOLEAN) : Restart(g))
   \/ IF pending = {} \/ (Cardinality(pending) < MaxPending /\ RandomElement({TRUE, FALSE}))
      THEN \E v \in R(OfferVersions), var \in R(MCShapes) : VerifyAhead(v, var)
      ELSE \E b \in R(pending) : StorePending(b)
